@@ -33,18 +33,32 @@ var (
 	Local = time.Local
 )
 
-func Unix(sec, nsec int64) Time                { return time.Unix(sec, nsec) }
-func UnixMilli(ms int64) Time                  { return time.UnixMilli(ms) }
+//go:norace
+func Unix(sec, nsec int64) Time { return time.Unix(sec, nsec) }
+
+//go:norace
+func UnixMilli(ms int64) Time { return time.UnixMilli(ms) }
+
+//go:norace
 func ParseDuration(s string) (Duration, error) { return time.ParseDuration(s) }
+
+//go:norace
 func Parse(layout, value string) (Time, error) { return time.Parse(layout, value) }
+
+//go:norace
 func Date(y int, m Month, d, h, mi, s, ns int, l *Location) Time {
 	return time.Date(y, m, d, h, mi, s, ns, l)
 }
 
 // Now is the virtual clock inside a controlled execution.
+//
+//go:norace
 func Now() Time { return vsched.Now() }
 
+//go:norace
 func Since(t Time) Duration { return Now().Sub(t) }
+
+//go:norace
 func Until(t Time) Duration { return t.Sub(Now()) }
 
 // Timer mirrors time.Timer.
@@ -54,6 +68,7 @@ type Timer struct {
 	r *time.Timer
 }
 
+//go:norace
 func NewTimer(d Duration) *Timer {
 	if !vsched.Active() {
 		r := time.NewTimer(d)
@@ -63,6 +78,7 @@ func NewTimer(d Duration) *Timer {
 	return &Timer{C: c, h: h}
 }
 
+//go:norace
 func (t *Timer) Stop() bool {
 	if t.r != nil {
 		return t.r.Stop()
@@ -70,6 +86,7 @@ func (t *Timer) Stop() bool {
 	return t.h.Stop()
 }
 
+//go:norace
 func (t *Timer) Reset(d Duration) bool {
 	if t.r != nil {
 		return t.r.Reset(d)
@@ -77,8 +94,10 @@ func (t *Timer) Reset(d Duration) bool {
 	return t.h.Reset(d)
 }
 
+//go:norace
 func After(d Duration) <-chan Time { return NewTimer(d).C }
 
+//go:norace
 func AfterFunc(d Duration, f func()) *Timer {
 	if !vsched.Active() {
 		r := time.AfterFunc(d, f)
@@ -94,6 +113,7 @@ type Ticker struct {
 	r *time.Ticker
 }
 
+//go:norace
 func NewTicker(d Duration) *Ticker {
 	if !vsched.Active() {
 		r := time.NewTicker(d)
@@ -103,6 +123,7 @@ func NewTicker(d Duration) *Ticker {
 	return &Ticker{C: c, h: h}
 }
 
+//go:norace
 func (t *Ticker) Stop() {
 	if t.r != nil {
 		t.r.Stop()
@@ -111,6 +132,7 @@ func (t *Ticker) Stop() {
 	t.h.Stop()
 }
 
+//go:norace
 func (t *Ticker) Reset(d Duration) {
 	if t.r != nil {
 		t.r.Reset(d)
@@ -119,8 +141,10 @@ func (t *Ticker) Reset(d Duration) {
 	t.h.Reset(d)
 }
 
+//go:norace
 func Tick(d Duration) <-chan Time { return NewTicker(d).C }
 
+//go:norace
 func Sleep(d Duration) {
 	if !vsched.Active() {
 		time.Sleep(d)
